@@ -156,3 +156,19 @@ Definition tls_server_spec (i : tls_server_in) : option tls_call :=
                 tc_min := m; tc_mode := Some (tsi_mode i) |}
       else None
   end.
+
+(* ---------- state listeners ---------- *)
+(* the adapter that hands a C listener to the Rust API keeps nothing but the C callbacks and forwards EVERY update,
+   unconditionally (repeated equal states included): its update is `self.inner.on_change(value.into()); MaybeAsync::ready(())` *)
+Definition listener_adapter_ok (r : string * list string * list string) : bool :=
+  let '(_, fields, body) := r in
+  match fields, body with
+  | [f], [b1; b2] => String.eqb f "inner" && String.eqb b1 "self.inner.on_change(value.into())" && String.eqb b2 "MaybeAsync::ready(())"
+  | _, _ => false
+  end.
+
+(* ---------- enable / disable through the C ABI ---------- *)
+(* Ok means the setting was queued for the channel task (the Rust API's Channel::enable / disable return after the
+   command is in the queue): FfiChannel keeps no state of its own and enable / disable are exactly the try_send *)
+Definition ffi_settings_spec : list (string * list string) :=
+  [("enable", ["self.send(Command::Setting(Setting::Enable))"]); ("disable", ["self.send(Command::Setting(Setting::Disable))"])].
